@@ -2,6 +2,7 @@ package sim
 
 import (
 	"fmt"
+	sdk "github.com/cosmos/cosmos-sdk/types"
 	"regexp"
 	"sort"
 	"strings"
@@ -206,6 +207,15 @@ func RunCase(spec CaseSpec) (res CaseResult) {
 			break
 		}
 		res.BlocksRun++
+		// model boundary: a chain on which no validator is bonded any more has no consensus engine to drive it (every
+		// validator was jailed, slashed to nothing or left); the history ends here and is not judged. (Until the repair of
+		// F40 this state made the bridge EndBlocker fail, which is how the boundary used to be noticed.)
+		if noBondedPower(c) {
+			c.Flags["valset-empty"] = true
+			res.Death = "out-of-model:validator-set-empty"
+			st.Count("out-of-model.validator-set-empty")
+			break
+		}
 		for _, tr := range br.Res.TxResults[minInt(1, len(br.Res.TxResults)):] {
 			if tr.Code == 0 {
 				res.TxAccepted++
@@ -234,6 +244,19 @@ func RunCase(spec CaseSpec) (res CaseResult) {
 		def.Finish(c, g, mons)
 	}
 	return
+}
+
+func noBondedPower(c *Chain) bool {
+	vals, err := c.App.StakingKeeper.GetAllValidators(c.CommittedCtx())
+	if err != nil {
+		return false
+	}
+	for _, v := range vals {
+		if v.IsBonded() && v.GetConsensusPower(sdk.DefaultPowerReduction) > 0 {
+			return false
+		}
+	}
+	return true
 }
 
 func deathIn(phase string, modules []string) bool {
